@@ -37,6 +37,11 @@ def unparse(node: ast.AST | None) -> str:
     return '' if node is None else ast.unparse(node)
 
 
+def seq(node: ast.AST) -> int:
+    """position of a node in the document order of the normalised tree (use it instead of comparing line numbers)"""
+    return getattr(node, '_verif_seq', getattr(node, 'lineno', 0) * 100000)
+
+
 def digest(text: str) -> str:
     return hashlib.sha1(text.encode('utf-8')).hexdigest()[:10]
 
@@ -545,9 +550,13 @@ class Program:
         for m in self.modules.values():
             yield from m.classes.values()
 
-    def all_functions(self) -> Iterator[FuncInfo]:
+    def all_functions(self, with_transparent: bool = False) -> Iterator[FuncInfo]:
+        """every function of the package; helpers that are new with respect to the reference inventory and whose calls were all
+        expanded in place (sa/normal.py) are examined through their callers and left out here"""
         for m in self.modules.values():
-            yield from m.all_functions
+            for f in m.all_functions:
+                if with_transparent or not getattr(f.node, '_verif_transparent', False):
+                    yield f
 
     def find_class(self, name: str, package: str | None = None) -> ClassInfo:
         found = [c for c in self.all_classes() if c.name == name and (package is None or c.module.name.startswith(f'{PKG}.{package}'))]
